@@ -8,6 +8,8 @@
 //!   refmap  : for every project file, every (position, entity) of Project::find_all_entity_references with the
 //!             declaration position of the entity, its designator kind/text and, when "full", the answers of
 //!             item_at_cursor / find_declaration with the cursor at the start of the position
+//!   answers : for every cursor of "queries" ([file, line, character]): item_at_cursor (range, designator kind),
+//!             find_declaration and find_all_references of it -- the three project calls of rename.rs
 //!   decls   : for every entity `d = ent.declaration()` met in the reference map, Project::find_all_references(d)
 //!             in the order the implementation returns them (duplicates kept)
 //! Files are loaded exactly like the server does: from disk as Latin-1 through the configuration; the files named in
@@ -118,7 +120,24 @@ fn snapshot(job: &Value) -> Value {
         let far: Vec<Value> = p.find_all_references(d).iter().map(loc).collect();
         decls.insert(id.to_string(), json!({"far": far, "describe": d.describe()}));
     }
-    json!({"dir": dir, "diags": dv, "refmap": refmap, "decls": decls})
+    // explicit cursor queries: what rename.rs asks the project
+    let mut answers = Vec::new();
+    for q in job["queries"].as_array().cloned().unwrap_or_default() {
+        let path = PathBuf::from(q[0].as_str().unwrap());
+        let cur = vhdl_lang::Position::new(q[1].as_u64().unwrap() as u32, q[2].as_u64().unwrap() as u32);
+        let Some(src) = p.get_source(&path) else {
+            answers.push(json!({"source": false}));
+            continue;
+        };
+        let iac = p.item_at_cursor(&src, cur).map(|(q, e)| {
+            let (k, t) = desig(e);
+            json!({"range": rng(&q), "ent": e.id().to_raw(), "dk": k, "name": t, "library": matches!(e.kind(), AnyEntKind::Library)})
+        });
+        let fd = p.find_declaration(&src, cur);
+        let far: Option<Vec<Value>> = fd.map(|e| p.find_all_references(e).iter().map(loc).collect());
+        answers.push(json!({"source": true, "iac": iac, "decl": fd.map(|e| e.id().to_raw()), "far": far}));
+    }
+    json!({"dir": dir, "diags": dv, "refmap": refmap, "decls": decls, "answers": answers})
 }
 
 fn main() {
